@@ -77,6 +77,7 @@ def unrollC : Cmd → List Cmd
   | .velRel a => [.velRel a] | .setQ a => [.setQ a] | .setT a => [.setT a]
   | .track a => [.track a] | .channel a => [.channel a] | .voice a => [.voice a]
   | .keyShift a => [.keyShift a] | .trackKey a => [.trackKey a] | .keyFlag a b => [.keyFlag a b]
+  | .trackSync => [.trackSync] | .play ps => [.play ps]
 def unrollL : List Cmd → List Cmd
   | [] => []
   | c :: cs => unrollC c ++ unrollL cs
@@ -164,6 +165,8 @@ theorem unrollC_spec : ∀ (c : Cmd), (∀ s, semL (unrollC c) s = sem c s) ∧ 
   | .keyShift a => ⟨fun s => by simp [unrollC, semL], by simp [unrollC, countElems]⟩
   | .trackKey a => ⟨fun s => by simp [unrollC, semL], by simp [unrollC, countElems]⟩
   | .keyFlag a b => ⟨fun s => by simp [unrollC, semL], by simp [unrollC, countElems]⟩
+  | .trackSync => ⟨fun s => by simp [unrollC, semL], by simp [unrollC, countElems]⟩
+  | .play ps => ⟨fun s => by simp [unrollC, semL], by simp [unrollC, countElems]⟩
 theorem unrollL_spec : ∀ (cs : List Cmd), (∀ s, semL (unrollL cs) s = semL cs s) ∧ countElems (unrollL cs) = countElems cs
   | [] => ⟨fun s => rfl, rfl⟩
   | c :: cs => by
